@@ -448,7 +448,55 @@ def _empty_case_returns_early(fi, ex, stack, matrix_param) -> bool:
     return False
 
 
+def _view_rank_array(t: T):
+    """True if `t` is a positional array extracted from a *view's* node/edge table
+    (`view.nodes.index.to_numpy()`, `view.nodes[col].to_numpy()`, `view._cells_in_view`, ...):
+    its positions are ranks within the view, not global indices."""
+    x = t
+    while x.op == "mcall" and x.name in ("to_numpy", "tolist", "to_list", "copy", "astype", "unique", "flatten"):
+        x = x.args[0]
+    if x.op == "attr" and x.name == "values":
+        x = x.args[0]
+    if x.op == "attr" and x.name == "index":
+        x = x.args[0]
+    elif x.op == "sub" and x.args[1].op == "const" and isinstance(x.args[1].name, str):
+        x = x.args[0]
+    else:
+        return False
+    # a node table owned by a view (not `.base`)
+    tbl = T.find(x, lambda y: y.op == "attr" and y.name in ("nodes", "edges"))
+    if tbl is None:
+        return False
+    owner = tbl.args[0]
+    return T.find(owner, lambda y: y.op == "attr" and y.name == "base") is None and \
+        T.find(owner, lambda y: y.op == "param") is not None
+
+
+def _positional_lookups(repo, col):
+    """A positional array of a view must not be subscripted with global indices."""
+    from sa.spaces import Classifier
+
+    cl = Classifier({})
+    n = 0
+    for name in ("fully_connect", "sparse_connect", "connectivity_matrix_connect"):
+        fi = repo.func(CF, name)
+        ex = idx.expander(repo, fi)
+        for kind, arr, ix, node in idx.gather_sites(ex):
+            if kind != "gather" or not _view_rank_array(arr):
+                continue
+            sp = cl.space(ix, "node")
+            if sp is None:
+                continue
+            n += 1
+            col.bad("R-C20-roles", fi, f"{unparse(node)[:70]}: positional lookup with a global index",
+                    f"`{unparse(node.value)[:40]}` lists the rows of a *view* (positions are ranks within the view) but is "
+                    f"subscripted with {idx._name(sp.s)} (possibly shifted): correct only for a contiguous population "
+                    f"starting at the offset; use a label-based lookup (`.loc`)", node=node)
+    return n
+
+
 def _common(repo, col):
+    _positional_lookups(repo, col)
     fi = repo.func(CF, "sample_comp")
     ex = idx.expander(repo, fi)
     r = ex.returns[0] if ex.returns else None
